@@ -70,6 +70,7 @@ var jwtErrPrefixes = []struct {
 	{"token issued in the future", 9},
 	{"token expired", 10},
 	{"verify signature: find public key: key not found", 11},
+	{"verify signature: find public key: fetch identity", 11}, // no usable key: the identity could not be fetched
 	{"verify signature: key type not supported", 12},
 	{"verify signature: invalid key: key not valid yet", 13},
 	{"verify signature: invalid key: key expired", 14},
@@ -124,9 +125,14 @@ func (r *run) fillJwtObs(c *Case, tok []byte, t *jwt.Token, err error) {
 // ---- HS256 ----------------------------------------------------------------------
 
 func (r *run) jwtHSCase(k int, kid string, now int64, tok []byte, mu *Mut) int {
-	v := jwt.NewHS256(hmacKeys[k], kid)
+	return r.jwtHSCaseOn(jwt.NewHS256(hmacKeys[k], kid), "jwt", k, kid, now, tok, mu)
+}
+
+// jwtHSCaseOn: verification by a given HS256 object that was created for key
+// k and key id kid (the pinned header the model is given).
+func (r *run) jwtHSCaseOn(v *jwt.HS256, stream string, k int, kid string, now int64, tok []byte, mu *Mut) int {
 	parts, hp, cp := parseSegs(tok)
-	c := &Case{Stream: "jwt", Op: "jwths", Fam: "jwt-hs", Key: k, Now: z(now), Tok: hx16(tok), HP: hp, CP: cp, Mut: mu,
+	c := &Case{Stream: stream, Op: "jwths", Fam: "jwt-hs", Key: k, Now: z(now), Tok: hx16(tok), HP: hp, CP: cp, Mut: mu,
 		Pin: &Hdr{Alg: hx16([]byte(jwt.AlgHS256)), Typ: hx16([]byte(jwt.DefaultType)), Kid: hx16([]byte(kid))}}
 	if len(parts) == 3 {
 		c.Macs = []Mac{macEntry(k, []byte(parts[0]+"."+parts[1]))}
@@ -379,10 +385,16 @@ func cardObs(ks []cardKey, tok []byte) []PubKey {
 }
 
 func (r *run) jwtRSCase(ks []cardKey, now int64, tok []byte, self bool, user, host string, mu *Mut) int {
-	card := cardOf(ks)
+	return r.jwtRSCaseOn(cardOf(ks), nil, "jwt-rs", ks, now, tok, self, user, host, mu)
+}
+
+// jwtRSCaseOn: verification against a given card object (whose keys are ks at
+// this moment) and, when not nil, a given long-lived verifier made from it.
+func (r *run) jwtRSCaseOn(card identity.Card, v jwt.Verifier, stream string, ks []cardKey, now int64, tok []byte, self bool,
+	user, host string, mu *Mut) int {
 	_, hp, cp := parseSegs(tok)
-	c := &Case{Stream: "jwt-rs", Op: "jwtrs", Fam: "jwt-rs", Now: z(now), Tok: hx16(tok), HP: hp, CP: cp, Mut: mu,
-		Card: cardObs(ks, tok)}
+	c := &Case{Stream: stream, Op: "jwtrs", Fam: "jwt-rs", Now: z(now), Tok: hx16(tok), HP: hp, CP: cp, Mut: mu,
+		Card: cardObs(ks, tok), History: r.hist}
 	var t *jwt.Token
 	var err error
 	if self {
@@ -390,9 +402,10 @@ func (r *run) jwtRSCase(ks []cardKey, now int64, tok []byte, self bool, user, ho
 		c.User, c.Host = hx16([]byte(user)), hx16([]byte(host))
 		c.Obs.Crash = guard(func() { t, err = identity.VerifySelfToken(ctx, string(tok), user, host, card, time.Unix(0, now)) })
 	} else {
-		c.Obs.Crash = guard(func() {
-			t, err = jwt.DecodeAndVerify(ctx, string(tok), identity.NewJWTVerifier(card), time.Unix(0, now))
-		})
+		if v == nil {
+			v = identity.NewJWTVerifier(card)
+		}
+		c.Obs.Crash = guard(func() { t, err = jwt.DecodeAndVerify(ctx, string(tok), v, time.Unix(0, now)) })
 	}
 	r.fillJwtObs(c, tok, t, err)
 	r.emit(c)
